@@ -65,6 +65,35 @@ CHECKS = {
         "Trusts ast.literal_eval as inverse; names are str; finite floats only.",
         "DESIGN.md section 4, C13",
     ),
+    "C02": (
+        "Hypothesis typed-grammar program generation (5 binder-naming schemes, nested-chain and guard shapes) x generated "
+        "datasets; oracle = semantic differential (CPython evaluates original vs simplified AST under a LINQ prelude) + static "
+        "free-variable check",
+        "Randomised search over closed, type-correct query ASTs; the original (deep copy) and the output of "
+        "simplify_chained_calls are both evaluated by CPython on generated datasets (incl. empty collections) and compared "
+        "exactly and type-strictly whenever the original evaluates; free(result) must be a subset of free(original).",
+        "Trusts CPython as evaluator and the 60-line LINQ prelude (self-validated at start); programs are limited to the fixed "
+        "Evt/Jet/Trk schema; depth <= 4.",
+        "DESIGN.md section 4, C02",
+    ),
+    "C14": (
+        "Hypothesis generation of linear producer/consumer chains with nested tuple/list/dict packaging; oracle = shape predicate "
+        "on the simplified AST (no construction, no projection left) known by construction + value differential as guard",
+        "Randomised search over 2-6 stage chains whose intermediate stages package values and later stages project with "
+        "constants; the simplified query must contain no Tuple/List/Dict node, no Subscript and no attribute with the reserved "
+        "f_ prefix (final-package variant: no projection, constructions bounded by the final element type).",
+        "The schema has no subscriptable members, so every remaining Subscript is a left-over projection; function form only.",
+        "DESIGN.md section 4, C14",
+    ),
+    "C18": (
+        "Hypothesis typed-grammar generation with planted odd selectors (variable/negative/slice/out-of-range index, absent key); "
+        "oracle = totality (returns or dedicated index error iff planted), unparse+compile validity, value differential",
+        "Randomised search over C02's grammar plus odd literal selectors in every position: the simplifier must return (no "
+        "RecursionError, no internal exception) or raise FuncADLIndexError only when a constant index beyond a literal's end was "
+        "planted; the result must unparse and compile, and evaluate to the original's value whenever that evaluates.",
+        "Planted out-of-range indices are recognised syntactically in the input text.",
+        "DESIGN.md section 4, C18",
+    ),
 }
 
 NOT_YET = "check not built yet in this round (work in progress; see DESIGN.md section 4 for the planned generator/oracle)"
